@@ -17,7 +17,7 @@ std::vector<Val> g_vec; size_t g_pos = 0; int g_failed = 0;
 bool g_exact = false;   // VERIF_EXACT: models run natively too (generated-C replay), nothing is skipped
 uint64_t next(const char *type) {
   while (!g_exact && g_pos < g_vec.size() && g_vec[g_pos].type[0] == 'm') g_pos++;   // values consumed by models in the encoding
-  if (g_pos >= g_vec.size()) { printf("DIVERGED vector exhausted at %zu (%s)\n", g_pos, type); fflush(stdout); _exit(12); }
+  if (g_pos >= g_vec.size()) { if (g_failed) { printf("vector ends after the failed assertion (%zu values)\n", g_pos); fflush(stdout); _exit(10); } printf("DIVERGED vector exhausted at %zu (%s)\n", g_pos, type); fflush(stdout); _exit(12); }
   const Val &v = g_vec[g_pos++];
   if (v.type != type) { printf("DIVERGED type mismatch at %zu: want %s have %s\n", g_pos - 1, type, v.type.c_str()); fflush(stdout); _exit(12); }
   return v.bits;
